@@ -10,7 +10,10 @@ RULE = ('TLC checks on MC_Txn (all interleavings of 2 connections) that the dirt
         'addressed a watched key, UNWATCH/EXEC/DISCARD forget); scenarios <pre-state type x write command x path '
         '(other connection, same connection, inside another EXEC, expiry by deadline) x target (watched key, other key, '
         'same name in another database)> are enumerated and run on the real server; the EXEC reply (nil vs array) and the '
-        'dataset afterwards are validated by TLC. Distinct = distinct scenario.')
+        'dataset afterwards are validated by TLC; scenarios with two watchers of one key (the other one unwatches, runs, '
+        'discards, re-watches or disconnects after the write) and random interleavings of four connections that '
+        'watch / unwatch / transact / write / reconnect over three keys of two databases are validated the same way. '
+        'Distinct = distinct scenario or random history.')
 ASSUMPTIONS = ['a successful write that changes nothing (SADD of a present member, ...) may or may not abort (MayTouch)',
                'expiry scenarios use 40 ms TTLs and sleep past the deadline by the observer clock']
 
@@ -120,6 +123,20 @@ def scenarios(quick):
     out.append(('watch-then-select-otherdb-write', [(1, [b'WATCH', W]), (1, [b'SELECT', b'1']), (2, [b'SELECT', b'1']), (2, [b'SET', W, b'x']), (1, [b'MULTI']), (1, [b'SET', b'marker', b'1']), (1, [b'EXEC'])]))
     out.append(('two-keys-second-touched', [(1, [b'WATCH', W, O]), (2, [b'SET', O, b'x']), (1, [b'MULTI']), (1, [b'SET', b'marker', b'1']), (1, [b'EXEC'])]))
     out.append(('rewatch-keeps-dirty', [(1, [b'WATCH', W]), (2, [b'SET', W, b'x']), (1, [b'WATCH', W]), (1, [b'MULTI']), (1, [b'SET', b'marker', b'1']), (1, [b'EXEC'])]))
+    # several watchers of one key: what one of them does afterwards must not erase the change for the others
+    mark = [(1, [b'MULTI']), (1, [b'SET', b'marker', b'1']), (1, [b'EXEC']), (1, [b'EXISTS', b'marker'])]
+    for wlabel, w in [('SET', [b'SET', W, b'x']), ('INCR', [b'INCR', W]), ('LPOP', [b'LPOP', W]), ('DEL', [b'DEL', W])]:
+        pre = [(3, [b'RPUSH', W, b'a', b'b'])] if wlabel == 'LPOP' else ([(3, [b'SET', W, b'5'])] if wlabel in ('INCR', 'DEL') else [])
+        for elabel, ending in [('unwatch', [(2, [b'UNWATCH'])]), ('exec', [(2, [b'MULTI']), (2, [b'EXEC'])]),
+                               ('discard', [(2, [b'MULTI']), (2, [b'DISCARD'])]), ('close', [('close', 2)]),
+                               ('rewatch', [(2, [b'WATCH', W])]), ('none', [])]:
+            for who in (2, 3):
+                st = pre + [(1, [b'WATCH', W]), (2, [b'WATCH', W]), (who, w)] + ending + mark
+                out.append(('two-watchers/%s/writer%d/%s' % (wlabel, who, elabel), st))
+        out.append(('two-watchers/%s/second-watches-after-write' % wlabel,
+                    pre + [(1, [b'WATCH', W]), (3, w), (2, [b'WATCH', W]), (2, [b'UNWATCH'])] + mark))
+        out.append(('two-watchers/%s/first-unwatches' % wlabel,
+                    pre + [(2, [b'WATCH', W]), (1, [b'WATCH', W]), (2, [b'UNWATCH']), (3, w)] + mark))
     # expiry by deadline while watched
     for pre in (['string'] if quick else ['string', 'list', 'hash']):
         mk = {'string': [b'SET', W, b'v'], 'list': [b'RPUSH', W, b'a'], 'hash': [b'HSET', W, b'f', b'v']}[pre]
@@ -148,6 +165,10 @@ def run_scenarios(ctx, srv, scs, label):
                     if st[0] == 'sleep':
                         time.sleep(st[1] / 1000.0)
                         continue
+                    if st[0] == 'close':
+                        if cmap.get(st[1]) in s.clients:
+                            s.close(cmap.pop(st[1]))
+                        continue
                     c, a = st
                     if c not in cmap or cmap[c] not in s.clients:
                         cmap[c] = s.open()
@@ -164,6 +185,88 @@ def run_scenarios(ctx, srv, scs, label):
             srv.restart()
 
 
+class WatchGen:
+    """Random interleaving of a few connections that watch, unwatch, open / run / discard transactions, write directly,
+    change database and reconnect, over three keys of two databases."""
+    KEYS = [W, O, b'k3']
+
+    def __init__(self, rnd, nconn=4):
+        self.rnd = rnd
+        self.conns = list(range(1, nconn + 1))
+        self.multi = {c: False for c in self.conns}
+
+    def write(self):
+        r = self.rnd
+        k = r.choice(self.KEYS)
+        return r.choice([[b'SET', k, r.choice([b'1', b'v'])], [b'INCR', k], [b'DEL', k], [b'LPUSH', k, b'x'], [b'LPOP', k],
+                         [b'APPEND', k, b'z'], [b'SADD', k, b'm'], [b'SREM', k, b'm'], [b'HSET', k, b'f', b'1'],
+                         [b'RENAME', k, r.choice(self.KEYS)], [b'EXPIRE', k, b'0'], [b'PEXPIRE', k, b'100000'], [b'PERSIST', k],
+                         [b'SET', k, b'1'], [b'DEL', k], [b'SETNX', k, b'n'], [b'MSET', k, b'1', r.choice(self.KEYS), b'2'],
+                         [b'ZADD', k, b'1', b'a'], [b'GETSET', k, b'g']])
+
+    def next(self):
+        r = self.rnd
+        c = r.choice(self.conns)
+        x = r.random()
+        if self.multi[c]:
+            if x < 0.45:
+                return c, (self.write() if r.random() < 0.8 else [b'GET', r.choice(self.KEYS)])
+            if x < 0.82:
+                self.multi[c] = False
+                return c, [b'EXEC']
+            if x < 0.92:
+                self.multi[c] = False
+                return c, [b'DISCARD']
+            if x < 0.96:
+                return c, [b'WATCH', r.choice(self.KEYS)]
+            return c, [b'MULTI']
+        if x < 0.25:
+            return c, [b'WATCH'] + r.sample(self.KEYS, r.choice([1, 1, 2, 3]))
+        if x < 0.33:
+            return c, [b'UNWATCH']
+        if x < 0.53:
+            self.multi[c] = True
+            return c, [b'MULTI']
+        if x < 0.83:
+            return c, self.write()
+        if x < 0.87:
+            return c, 'reconnect'
+        if x < 0.91:
+            return c, [b'SELECT', r.choice([b'0', b'0', b'1'])]
+        if x < 0.93:
+            return c, r.choice([[b'EXEC'], [b'DISCARD'], [b'FLUSHDB']])
+        return c, [b'GET', r.choice(self.KEYS)]
+
+
+def random_watch_history(ctx, srv, n, label):
+    s = workloads.fresh_session(ctx, srv, label)
+    g = WatchGen(ctx.rnd)
+    cmap = {}
+    try:
+        admin = s.open()
+        s.cmd(admin, [b'FLUSHALL'])
+        for _ in range(n):
+            c, a = g.next()
+            if a == 'reconnect':
+                if cmap.get(c) in s.clients:
+                    s.close(cmap.pop(c))
+                g.multi[c] = False
+                continue
+            if cmap.get(c) not in s.clients:
+                cmap[c] = s.open()
+                g.multi[c] = False
+            s.cmd(cmap[c], a)
+        for d in (b'0', b'1'):
+            s.cmd(admin, [b'SELECT', d])
+            workloads.dump_db(s, admin)
+    except ServerDied:
+        pass
+    s.close_all()
+    ctx.validate(s.trace, label=label)
+    if not srv.alive():
+        srv.restart()
+
+
 def run(ctx):
     ctx.model_check('MC_Txn', 'MC_C07' if ctx.quick else 'MC_C07_full', workers=12, timeout=1500)
     scs = scenarios(ctx.quick)
@@ -171,6 +274,11 @@ def run(ctx):
     ctx.extra_cov['distinct_cases'] = len(scs)
     srv = ctx.new_server()
     run_scenarios(ctx, srv, scs, 'watch')
+    hist = 8 if ctx.quick else 80
+    for i in range(hist):
+        random_watch_history(ctx, srv, 300 if ctx.quick else 600, 'wrand%d' % i)
+    ctx.extra_cov['random_watch_histories'] = hist
+    ctx.extra_cov['distinct_cases'] = len(scs) + hist
 
 
 def replay(ctx, path):
